@@ -293,10 +293,191 @@ pub fn avoid_exact_timeout(c: &mut Case) {
     }
 }
 
+/// remove steps that are outside the documented usage for the given actor (restart on a
+/// stream-attached actor panics on purpose)
+fn sanitize(c: &mut Case) {
+    let stream = c.actors.first().is_some_and(|a| a.spawn.is_stream());
+    if stream {
+        for cl in &mut c.clients {
+            for op in cl.iter_mut() {
+                if let ClientOp::Send { work, .. } | ClientOp::Call { work, .. } = op {
+                    work.retain(|s| !matches!(s, Step::CtxRestart));
+                }
+            }
+        }
+    }
+}
+
+fn stream_spawn() -> BoxedStrategy<SpawnSpec> {
+    (proptest::option::of(mailbox()), any::<bool>()).prop_map(|(builder, owning)| SpawnSpec::Stream { builder, owning }).boxed()
+}
+
+/// message work with context operations
+fn ctx_work(max_sleep: u32, stop: u32, restart: u32) -> BoxedStrategy<Vec<Step>> {
+    let mut alts: Vec<(u32, BoxedStrategy<Step>)> = vec![
+        (6, Just(Step::Yield).boxed()),
+        (4, (0..=max_sleep).prop_map(Step::Sleep).boxed()),
+        (stop, Just(Step::CtxStop).boxed()),
+        (restart, Just(Step::CtxRestart).boxed()),
+    ];
+    alts.retain(|(w, _)| *w > 0);
+    vec(proptest::strategy::Union::new_weighted(alts), 0..=2).boxed()
+}
+
+fn msg_op(send: u32, call: u32, w: BoxedStrategy<Vec<Step>>) -> BoxedStrategy<ClientOp> {
+    prop_oneof![
+        send => (h(), w.clone()).prop_map(|(h, work)| ClientOp::Send { h, work }),
+        call => (h(), w).prop_map(|(h, work)| ClientOp::Call { h, work }),
+    ]
+    .boxed()
+}
+
+fn mixed_ops(base: OpWeights, extra: Vec<(u32, BoxedStrategy<ClientOp>)>) -> BoxedStrategy<ClientOp> {
+    let total_extra: u32 = extra.iter().map(|e| e.0).sum();
+    let mut alts = vec![(100u32.saturating_sub(total_extra).max(1), client_op(base))];
+    alts.extend(extra);
+    proptest::strategy::Union::new_weighted(alts).boxed()
+}
+
+pub fn c03(big: bool) -> BoxedStrategy<Case> {
+    let max_ops = if big { 14 } else { 9 };
+    let spawn = prop_oneof![3 => plain_spawn(true), 2 => stream_spawn()];
+    let start_fail = prop_oneof![6 => Just(None), 1 => (0u32..3).prop_map(|i| Some((i, FailHow::Err)))];
+    let base = OpWeights { stop: 4, halt: 2, try_stop: 2, await_: 3, drop: 5, restart: 8, join: 2, consume: 1, max_sleep: 4, send: 25, call: 20, ..MSG_WEIGHTS };
+    let op = mixed_ops(
+        base,
+        vec![
+            (12, msg_op(1, 1, ctx_work(3, 2, 3))),
+            (8, (any::<u8>(), 0u8..4).prop_map(|(stream, n)| ClientOp::Feed { stream, n }).boxed()),
+            (2, any::<u8>().prop_map(|stream| ClientOp::EndStream { stream }).boxed()),
+        ],
+    );
+    (spawn, start_fail, started_with_timers(2), 1usize..=3)
+        .prop_flat_map(move |(spawn, start_fail, started, n)| {
+            let owning = spawn.owning();
+            (
+                Just(spawn),
+                Just(start_fail),
+                Just(started),
+                grants(n, owning, 2),
+                vec(vec(op.clone(), 3..=max_ops), n..=n),
+                schedule(if big { 96 } else { 48 }),
+            )
+        })
+        .prop_map(|(spawn, start_fail, started, grants, clients, schedule)| {
+            let beh = Behavior { started, start_fail, ..Default::default() };
+            let mut c = Case {
+                family: Family::C03,
+                actors: one_actor(spawn, beh.clone()),
+                // recreated values behave like the original (but never fail on their own)
+                default_beh: vec![Behavior { start_fail: None, ..beh }],
+                grants,
+                clients,
+                faults: vec![],
+                schedule,
+                settle: 0,
+            };
+            sanitize(&mut c);
+            finalize(c)
+        })
+        .boxed()
+}
+
+pub fn c04(big: bool) -> BoxedStrategy<Case> {
+    let max_ops = if big { 14 } else { 9 };
+    let base = OpWeights { stop: 7, halt: 4, try_stop: 5, await_: 7, drop: 0, give: 2, join: 3, consume: 2, max_sleep: 4, send: 28, call: 24, ping: 5, convert: 8, ..MSG_WEIGHTS };
+    let op = mixed_ops(base, vec![(8, msg_op(1, 1, ctx_work(3, 3, 0)))]);
+    (plain_spawn(false), 2usize..=4)
+        .prop_flat_map(move |(spawn, n)| {
+            let owning = spawn.owning();
+            (Just(spawn), grants(n, owning, 3), vec(vec(op.clone(), 3..=max_ops), n..=n), schedule(if big { 96 } else { 48 }))
+        })
+        .prop_map(|(spawn, grants, clients, schedule)| {
+            finalize(Case {
+                family: Family::C04,
+                actors: one_actor(spawn, Behavior::default()),
+                default_beh: vec![],
+                grants,
+                clients,
+                faults: vec![],
+                schedule,
+                settle: 0,
+            })
+        })
+        .boxed()
+}
+
+pub fn c05(big: bool) -> BoxedStrategy<Case> {
+    let max_ops = if big { 16 } else { 10 };
+    let base = OpWeights { stop: 0, drop: 16, give: 5, convert: 30, send: 18, call: 14, ping: 3, yield_: 5, sleep: 5, max_sleep: 6, ..MSG_WEIGHTS };
+    let started = prop_oneof![
+        2 => Just(vec![]),
+        3 => vec(prop_oneof![4 => light_timer().prop_map(Step::AddTimer), 1 => (0u8..2).prop_map(Step::Subscribe)], 1..=3),
+    ];
+    (plain_spawn(false), started, 1usize..=3)
+        .prop_flat_map(move |(spawn, started, n)| {
+            let owning = spawn.owning();
+            (
+                Just(spawn),
+                Just(started),
+                // few handles so that the last one is really dropped by the clients
+                vec(vec(grant_kind(4), 0..=2), n),
+                Just(owning),
+                clients(n..=n, 2..=max_ops, base),
+                // tails: drop what is left, then probe the weak handles
+                vec(
+                    vec(
+                        prop_oneof![
+                            6 => h().prop_map(|h| ClientOp::Drop { h }),
+                            3 => h().prop_map(|h| ClientOp::Upgrade { h }),
+                            1 => (h(), work(1, 2)).prop_map(|(h, work)| ClientOp::Send { h, work }),
+                            1 => (h(), work(1, 2)).prop_map(|(h, work)| ClientOp::Call { h, work }),
+                            1 => (0u32..4).prop_map(ClientOp::Sleep),
+                        ],
+                        0..=6,
+                    ),
+                    n..=n,
+                ),
+                schedule(if big { 96 } else { 48 }),
+            )
+        })
+        .prop_map(|(spawn, started, per, owning, mut clients, tails, schedule)| {
+            for (c, t) in clients.iter_mut().zip(tails) {
+                c.extend(t);
+            }
+            let mut grants = vec![];
+            if owning {
+                grants.push(Grant { client: 0, actor: 0, kind: HKind::Owning });
+            } else {
+                grants.push(Grant { client: 0, actor: 0, kind: HKind::Addr });
+            }
+            grants.push(Grant { client: 0, actor: 0, kind: HKind::WeakAddr });
+            for (c, kinds) in per.into_iter().enumerate() {
+                for kind in kinds {
+                    grants.push(Grant { client: c, actor: 0, kind });
+                }
+            }
+            finalize(Case {
+                family: Family::C05,
+                actors: one_actor(spawn, Behavior { started, ..Default::default() }),
+                default_beh: vec![],
+                grants,
+                clients,
+                faults: vec![],
+                schedule,
+                settle: 0,
+            })
+        })
+        .boxed()
+}
+
 pub fn strategy(family: Family, big: bool) -> BoxedStrategy<Case> {
     match family {
         Family::C01 => c01(big),
         Family::C02 => c02(big),
+        Family::C03 => c03(big),
+        Family::C04 => c04(big),
+        Family::C05 => c05(big),
         _ => c01(big),
     }
 }
